@@ -18,9 +18,9 @@ RULE = ("seeded generator of node sequences (len 1..8) over the component librar
         "through the public API (python list or YAML file) and compared with the reference interpreter. "
         "distinct = canonical hash of (nodes, ctx, data); non-trivial = >=3 nodes executed or a failure, "
         "and at least one parameter resolved from context or default")
-SHARDS = {"quick": 1, "thorough": 16}
-SHARD_TIMEOUT = {"thorough": 2400}
-N_CASES = {"quick": 1500, "thorough": 6000}
+SHARDS = {"quick": 1, "thorough": 48}   # many small fresh processes (memory/speed, see check driver)
+SHARD_TIMEOUT = {"thorough": 3000}
+N_CASES = {"quick": 1500, "thorough": 1500}  # per shard
 
 
 from vlib.diffrun import compare  # noqa: E402
